@@ -67,11 +67,15 @@ var elRePool = []*regexp.Regexp{
 	// the same expressions compiled a second time (callers usually compile inline): distinct
 	// *regexp.Regexp values with identical source text
 	regexp.MustCompile(`^my-`), regexp.MustCompile(`.*`), regexp.MustCompile(`-y$`),
+	// an inline flag, and expressions that match no (lower-cased) tag name unless some other
+	// expression's flag leaks into them
+	regexp.MustCompile(`(?i)^my-[a-z]+$`), regexp.MustCompile(`^X-[a-z-]+$`), regexp.MustCompile(`(?s)^q.q$`), regexp.MustCompile(`^SX$|^DIV$`),
 }
 
 // sample names for each element pattern (used by conforming-document generation)
 var elReSamples = [][]string{{"my-x", "my-zzz"}, {"my-y", "x-a-y"}, {"x-a-y", "x-q"}, {"h1", "h3", "h6"}, {"zz", "my-x", "div", "custom"}, {"span", "sx", "section"},
-	{"b", "i", "u", "em"}, {"tag1", "tagged"}, {"a", "img", "link"}, {"b", "ul", "del", "qq"}, {"my-x", "my-zzz"}, {"zz", "my-x", "div", "custom"}, {"my-y", "x-a-y"}}
+	{"b", "i", "u", "em"}, {"tag1", "tagged"}, {"a", "img", "link"}, {"b", "ul", "del", "qq"}, {"my-x", "my-zzz"}, {"zz", "my-x", "div", "custom"}, {"my-y", "x-a-y"},
+	{"my-x", "my-zzz"}, {}, {"qxq"}, {}}
 
 var schemePool = []string{"http", "https", "mailto", "ftp", "data", "x-app", "javascript", "tel", "zoommtg"}
 
